@@ -182,12 +182,27 @@ func instantiateGenericModel(
 	// is not safe to mutate.
 	clonedStruct := reducedStruct.Clone()
 
-	rawParamNames := linq.Map(typeParamReplacementNodes, func(tParamNode *SymbolNode) string {
-		if tParamNode.Kind.IsBuiltin() {
-			return tParamNode.Id.Name
+	rawParamNames := make([]string, 0, len(typeParamReplacementNodes))
+	for _, tParamNode := range typeParamReplacementNodes {
+		if tParamNode == nil {
+			return clonedStruct, fmt.Errorf("generic struct '%s' is instantiated with an unresolved type argument", rawStruct.Name)
 		}
-		return tParamNode.Data.(*metadata.TypeParamDeclMeta).Name
-	})
+		if tParamNode.Kind.IsBuiltin() {
+			rawParamNames = append(rawParamNames, tParamNode.Id.Name)
+			continue
+		}
+		typeParamMeta, isTypeParamMeta := tParamNode.Data.(*metadata.TypeParamDeclMeta)
+		if !isTypeParamMeta {
+			// Only built-in type arguments can currently be materialized. Anything else (structs, nested
+			// instantiations, composites) is reported rather than asserted
+			return clonedStruct, fmt.Errorf(
+				"generic struct '%s' is instantiated with a type argument of kind '%s' which is not supported",
+				rawStruct.Name,
+				tParamNode.Kind,
+			)
+		}
+		rawParamNames = append(rawParamNames, typeParamMeta.Name)
+	}
 
 	if modelNameTransformer != nil {
 		clonedStruct.Name = modelNameTransformer(clonedStruct.Name, rawParamNames)
@@ -195,7 +210,7 @@ func instantiateGenericModel(
 		clonedStruct.Name = StandardModelNameTransformer(clonedStruct.Name, rawParamNames)
 	}
 
-	for fieldIdx, field := range rawStruct.Fields {
+	for _, field := range rawStruct.Fields {
 		// Check if this is a generic field. A bit of an ugly heuristic.
 		// Will need to re-work generic parameters later on.
 		if field.Type.Root != nil && field.Type.Root.Kind() == metadata.TypeRefKindParam {
@@ -217,8 +232,20 @@ func instantiateGenericModel(
 				)
 			}
 
-			// Re-write the type
-			clonedStruct.Fields[fieldIdx].Type = rawParamNames[replParamIdx]
+			if replParamIdx < 0 || int(replParamIdx) >= len(rawParamNames) {
+				return clonedStruct, fmt.Errorf(
+					"generic placeholder '%s' in field '%s' refers to a type argument that was not provided",
+					field.Type.Name,
+					field.Name,
+				)
+			}
+
+			// Re-write the type. Reduced fields are a subset of the raw ones (some fields are not part of the model)
+			for clonedIdx := range clonedStruct.Fields {
+				if clonedStruct.Fields[clonedIdx].Name == field.Name {
+					clonedStruct.Fields[clonedIdx].Type = rawParamNames[replParamIdx]
+				}
+			}
 		}
 
 	}
